@@ -3,4 +3,4 @@ CONSTANTS
   Profile = "thorough"
   Group = "design"
 INVARIANT LawCsvWriterLossless
-INVARIANT LawSepFormatSafe
+INVARIANT LawSepFormatLossless
